@@ -18,7 +18,15 @@ import (
 
 type Rng struct{ s uint64 }
 
-func NewRng(seed uint64) *Rng { return &Rng{s: seed*0x9E3779B97F4A7C15 + 0x1234567} }
+// NewRng: the seed is first scrambled with the splitmix64 finaliser, so that consecutive VERIF_SEED values give
+// unrelated streams (with the plain affine initial state, seed+1 would be the stream of seed shifted by one step).
+func NewRng(seed uint64) *Rng {
+	z := seed + 0x1234567
+	z = (z ^ (z >> 30)) * 0xBF58476D1CE4E5B9
+	z = (z ^ (z >> 27)) * 0x94D049BB133111EB
+	z ^= z >> 31
+	return &Rng{s: z*0x9E3779B97F4A7C15 + 0x632BE59BD9B4E019}
+}
 
 func (r *Rng) U64() uint64 {
 	r.s += 0x9E3779B97F4A7C15
